@@ -416,7 +416,9 @@ let () =
                      | _ -> ())))
       | "kickstart" :: hash :: time :: vfile :: post :: _ktags when want ->
           let g2 = string_of_hex "93e02b6052719f607dacd3a088274f65596bd0d09920b61ab5da61bbdc7f5049334cf11213945d57e5ac7d055d042b7e024aa2b2f08f0a91260805272dc51051c6e47ad4fa403b02b4510b647ae3d1770bac0326a805bbefd48056c8c121bdb8" in
-          (match run_kickstart_impl env (fun _ -> true) (fun _ -> true) (bytes_of_string g2) (bytes_of_string (string_of_hex hash)) (n_of_decimal time) (bytes_of_string (blob vfile)) with
+          (* a key decodes iff it is in the PK table (the generator lists every decodable key it uses; kickstart lists may contain
+             undecodable ones, which zrnt skips) *)
+          (match run_kickstart_impl env (fun pk -> Hashtbl.mem bls.pks (string_of_bytes pk)) (fun _ -> true) (bytes_of_string g2) (bytes_of_string (string_of_hex hash)) (n_of_decimal time) (bytes_of_string (blob vfile)) with
            | GenOk b ->
                (match Hashtbl.find_opt states post with
                 | Some (_, gbytes) -> report lineno (string_of_bytes b = gbytes) "kickstart-impl same-post-state-as-impl-model"
